@@ -115,6 +115,26 @@ def _run_impl(case: dict) -> dict:
 
         loop.set_task_factory(factory)
 
+        # gated replies: the reply's connection has a disconnect() that suspends until the schedule releases it
+        gates: list = []          # [future, entered?]
+        handler_tasks: list = []
+
+        def gated_connection():
+            gate = [loop.create_future(), False]
+            gates.append(gate)
+            conn = Mock(spec=PeerConnection)
+
+            async def disconnect(*a, **kw):
+                gate[1] = True
+                await gate[0]
+            conn.disconnect = disconnect
+            return conn
+
+        def release_gates():
+            for g in gates:
+                if not g[0].done():
+                    g[0].set_result(None)
+
         for op in case['ops']:
             del events[:]
             del errors[:]
@@ -144,6 +164,16 @@ def _run_impl(case: dict) -> dict:
                     msg = PeerSearchReply.Request(username='peer', ticket=op[1], results=[], has_slots_free=True,
                                                   avg_speed=0, queue_size=0)
                     await bus.emit(MessageReceivedEvent(message=msg, connection=peer_conn))
+                elif k == 'greply':
+                    # the handler runs as its own task (as under the peer connection's reader loop) and suspends in
+                    # connection.disconnect() until a later `release`
+                    msg = PeerSearchReply.Request(username='peer', ticket=op[1], results=[], has_slots_free=True,
+                                                  avg_speed=0, queue_size=0)
+                    ht = asyncio.ensure_future(bus.emit(MessageReceivedEvent(message=msg, connection=gated_connection())))
+                    ht.add_done_callback(task_done)
+                    handler_tasks.append(ht)
+                elif k == 'release':
+                    release_gates()
                 elif k in ('tcancel', 'tresched'):
                     r = m.requests.get(op[1])
                     if r is None:
@@ -177,16 +207,22 @@ def _run_impl(case: dict) -> dict:
             st['armed'] = sorted(tk for tk, r in m.requests.items() if r.timer is not None and r.timer._task is not None)
             st['res'] = [[tk, len(r.results)] for tk, r in sorted(m.requests.items())]
             st['pend'] = sum(1 for t in timer_tasks if not t.done())
+            st['susp'] = sum(1 for g in gates if g[1] and not g[0].done())
+            st['stored'] = [[i, len(o.results)] for i, o in enumerate(objs)]
             steps.append(st)
         # let pending done-callbacks run (same instant) so that every task error is seen
         del errors[:]
+        del events[:]
+        release_gates()
         await simloop.settle()
-        return {'late_errors': [list(x) for x in errors], 'keep': len(keep)}
+        return {'late_errors': [list(x) for x in errors], 'late_events': [list(x) for x in events],
+                'handlers_pending': sum(1 for t in handler_tasks if not t.done()), 'keep': len(keep)}
 
     try:
         from vlib import simloop as _sl
         res, loop = _sl.run(main, start=START, wall_timeout=30.0)
-        tail = {'late_errors': res['late_errors'], 'loop_exceptions': loop.exceptions}
+        tail = {'late_errors': res['late_errors'], 'loop_exceptions': loop.exceptions,
+                'late_events': res['late_events'], 'handlers_pending': res['handlers_pending']}
     except Exception as e:  # harness-level failure of this case (e.g. the loop does not quiesce)
         tail = {'late_errors': [], 'loop_exceptions': [], 'harness': f'{type(e).__name__}: {e}'}
     return {'steps': steps, 'tail': tail}
@@ -244,6 +280,7 @@ def _monitor(case: dict, tr: dict) -> list[Violation]:
     live: dict[int, int] = {}       # ticket -> rid  (registered, as far as events and API calls say)
     wl_interval = None
     draws = 0
+    gated: list = []                # replies whose handler may be suspended in disconnect(): {tk, rid, ok}
     if tr['tail'].get('harness'):
         bad('C18-harness', 'the case could not be run to the end: ' + tr['tail']['harness'])
         return vs
@@ -343,12 +380,32 @@ def _monitor(case: dict, tr: dict) -> list[Violation]:
                     r['live'] = False
                     if live.get(tk) == rid:
                         del live[tk]
+            elif kind == 'R' and k != 'reply':
+                # a result reported while the loop runs: it must answer a gated reply with this ticket, and the
+                # request must be registered at the moment of the event (events of one step are in order)
+                r = reqs.get(rid)
+                g = next((x for x in gated if x['tk'] == tk and not x['answered']), None)
+                if g is None:
+                    bad('C18-result-unsolicited', f'{where}: SearchResultEvent without a reply', observed=[t, tk])
+                    continue
+                g['answered'] = True
+                if rtk != tk:
+                    bad('C18-result-wrong-ticket', f'{where}: result with ticket {rtk} reported for request {tk}',
+                        observed=[tk, rtk], required=tk)
+                elif r is not None and r['by_user']:
+                    bad('C18-result-after-remove', f'{where}: SearchResultEvent for ticket {tk} at t={t}, after the '
+                        'user removed the request (the reply handler was suspended in connection.disconnect() when '
+                        'the request was removed)', observed=[t, tk, {'stored': st['stored']}],
+                        required='no result event after remove_request')
+                elif r is None or not r['live']:
+                    bad('C18-result-after-timeout', f'{where}: SearchResultEvent for ticket {tk} at t={t}, after its '
+                        'SearchRequestRemovedEvent (the reply handler was suspended in connection.disconnect() when '
+                        'the timeout expired)', observed=[t, tk, {'stored': st['stored']}],
+                        required='no result event after the removal was reported')
             elif kind == 'R':
                 n_results += 1
                 r = reqs.get(rid)
-                if k != 'reply':
-                    bad('C18-result-unsolicited', f'{where}: SearchResultEvent without a reply', observed=[t, tk])
-                elif rtk != op[1] or tk != op[1]:
+                if rtk != op[1] or tk != op[1]:
                     bad('C18-result-wrong-ticket', f'{where}: result with ticket {rtk} reported for request {tk}',
                         observed=[tk, rtk], required=op[1])
                 elif r is None or not r['live'] or op[1] not in st['before']:
@@ -361,6 +418,8 @@ def _monitor(case: dict, tr: dict) -> list[Violation]:
                     f'{where}: {n_results} SearchResultEvent(s), ticket registered: {bool(want)}',
                     observed=n_results, required=want)
         # ---- API calls of this op
+        if k == 'greply':
+            gated.append({'tk': op[1], 'rid': live.get(op[1]), 'answered': False, 'op': i})
         if k == 'remove' and st['ret'] == 'removed':
             rid = live.pop(op[1], None)
             if rid is not None:       # (accepting an unknown ticket silently is not against the property)
@@ -389,6 +448,27 @@ def _monitor(case: dict, tr: dict) -> list[Violation]:
         if vs:
             return vs
     t = tr['tail']
+    # gated replies: anything reported only after the last op (the harness releases every gate at the end)
+    for tt, kind, tk, rid, stype, rtk in t.get('late_events', []):
+        r = reqs.get(rid)
+        g = next((x for x in gated if x['tk'] == tk and not x['answered']), None)
+        if kind == 'R' and g is not None:
+            g['answered'] = True
+            if r is None or not r['live']:
+                bad('C18-result-after-remove' if (r and r['by_user']) else 'C18-result-after-timeout',
+                    f'end of case: SearchResultEvent for ticket {tk} at t={tt} after the request was removed',
+                    observed=[tt, tk])
+        elif kind == 'R':
+            bad('C18-result-unsolicited', 'end of case: SearchResultEvent without a reply', observed=[tt, tk])
+    # a gated reply for a request that stayed registered from the reply to the end must have been reported
+    for g in gated:
+        r = reqs.get(g['rid']) if g['rid'] is not None else None
+        if not g['answered'] and r is not None and r['live'] and not t.get('handlers_pending'):
+            bad('C18-result-missing', f'op #{g["op"]}: the reply for ticket {g["tk"]} was never reported although '
+                'the request stayed registered', observed=0, required=1)
+    if t.get('handlers_pending'):
+        bad('C18-handler-stuck', 'a reply handler did not finish after its connection was released',
+            observed=t['handlers_pending'])
     if t['late_errors'] or t['loop_exceptions']:
         bad('C18-loop-error', 'exception reached the loop exception handler / a library task',
             observed=[t['late_errors'], t['loop_exceptions']])
@@ -514,6 +594,71 @@ def _fixed_cases() -> list[dict]:
     return out
 
 
+def _gen_gated(rng: random.Random) -> dict:
+    """MONITOR ONLY (the model stays atomic): a reply whose connection.disconnect() suspends; while the handler is
+    suspended there the schedule removes the request, lets its timeout expire, or delivers another reply for the
+    same ticket; then the connection is released and the loop runs."""
+    cfg = _gen_cfg(rng)
+    cfg['initial'] = 1
+    wish = rng.random() < 0.3
+    if wish:
+        cfg['items'] = [1] + cfg['items'][:1]
+        cfg['wt'] = rng.choice([-1, -1, 2, 3, 0])
+    else:
+        cfg['rt'] = rng.choice([0, 1, 2, 3, 5])
+    ops: list = []
+    draws = 0
+    for _ in range(rng.randint(0, 2)):
+        ops.append(['search', rng.choice(['net', 'room', 'user'])])
+        draws += 1
+    if wish:
+        iv = rng.choice([2, 3, 4])
+        ops += [['wlmsg', iv], ['sleep', 0]]
+        T = cfg['wt'] if cfg['wt'] >= 0 else iv
+    else:
+        ops.append(['search', rng.choice(['net', 'room', 'user'])])
+        T = cfg['rt']
+    tk = _tickets(1, draws + 1)[-1]
+    if rng.random() < 0.4:
+        ops.append(['sleep', rng.choice([0, 1, max(T - 1, 0)])])
+    ops.append(['greply', tk])
+    if rng.random() < 0.9:
+        ops.append(['sleep', 0])                  # the handler runs up to disconnect()
+    what = rng.choice(['remove', 'remove', 'expiry', 'expiry', 'second', 'mixed'])
+    mid: list = []
+    if what in ('remove', 'mixed'):
+        mid.append(['remove', tk])
+    if what in ('expiry', 'mixed') and T > 0:
+        mid += [['jump', rng.choice([T, T, T + 1])], ['sleep', 0]] if rng.random() < 0.6 else [['sleep', T]]
+    if what in ('second', 'mixed') or rng.random() < 0.2:
+        mid += [rng.choice([['greply', tk], ['reply', tk]])]
+        if rng.random() < 0.5:
+            mid.append(['sleep', 0])
+    if rng.random() < 0.15:
+        mid.insert(0, rng.choice([['tcancel', tk], ['tresched', tk, rng.choice([0, 1, 2])]]))
+    if rng.random() < 0.1:                        # control: released before anything happens
+        ops += [['release'], ['sleep', 0]]
+    ops += mid
+    ops += [['release'], ['sleep', 0]]
+    if rng.random() < 0.5:
+        ops.append(['sleep', rng.choice([1, 5, 10])])
+    return {'cfg': cfg, 'ops': ops, 'kind': 'gated', 'what': what}
+
+
+def _fixed_gated() -> list[dict]:
+    out = []
+    base = {'store': 1, 'initial': 1}
+    srcs = [(dict(base, rt=3, wt=-1, items=[]), [['search', 'net']], 3),
+            (dict(base, rt=0, wt=-1, items=[1]), [['wlmsg', 4], ['sleep', 0]], 4),
+            (dict(base, rt=0, wt=2, items=[1]), [['wlmsg', 5], ['sleep', 0]], 2)]
+    for cfg, pre, T in srcs:
+        for mid in ([['remove', 2]], [['jump', T], ['sleep', 0]], [['sleep', T]], [['greply', 2], ['sleep', 0]],
+                    [['greply', 2], ['sleep', 0], ['remove', 2]], [['remove', 2], ['reply', 2]]):
+            out.append({'cfg': dict(cfg), 'kind': 'gated', 'what': 'fixed',
+                        'ops': pre + [['greply', 2], ['sleep', 0]] + mid + [['release'], ['sleep', 0], ['sleep', 6]]})
+    return out
+
+
 # known defects of the unchanged tree (repaired by the proposed patches) — replayed on every run
 W_REMOVE = {'cfg': {'rt': 5, 'wt': -1, 'store': 1, 'initial': 1, 'items': []}, 'kind': 'witness',
             'ops': [['search', 'net'], ['remove', 2], ['sleep', 10]]}
@@ -542,6 +687,22 @@ def _nontrivial(case, tr) -> bool:
     return timed_out and stale
 
 
+def _gated_stats(case, tr) -> dict:
+    """what happened while at least one reply handler was suspended in disconnect()"""
+    out = {'remove': 0, 'timeout': 0, 'reply': 0}
+    prev = 0
+    for op, st in zip(case['ops'], tr['steps']):
+        if prev > 0:
+            if op[0] == 'remove' and st['ret'] == 'removed':
+                out['remove'] += 1
+            if any(e[1] == 'X' for e in st['events']):
+                out['timeout'] += 1
+            if op[0] in ('greply', 'reply'):
+                out['reply'] += 1
+        prev = st.get('susp', 0)
+    return out
+
+
 class C18(Property):
     id = 'C18'
     props_module = 'AioslskVerif.Props.C18'
@@ -551,9 +712,12 @@ class C18(Property):
             'Timer.reschedule, clock jump, loop run for d s}, request_timeout in {-1,0,1..8}, '
             'wishlist_request_timeout in {-1 (server interval),0,1..7}, 0-3 wishlist items, ticket generator started '
             'at 1 or just below 2^32; plus every order of removal / reply / expiry at the instant of the timeout; '
+            'plus a MONITOR-ONLY family (n/5 cases, not compared with the model) in which the reply handler is '
+            'suspended in connection.disconnect() while the request is removed / times out / is answered again; '
             'derived from VERIF_SEED. Non-trivial: at least one timeout removal happened AND a reply/removal hit a '
             'ticket that was registered earlier, or a removal / cancel / re-arm hit an armed timer; distinct = '
-            'distinct canonical case')
+            'distinct canonical case; a gated case is non-trivial when a removal, a timeout or another reply '
+            'happened while a handler was suspended')
     assumptions = [
         'listeners, the network stub and the shares/upload stubs do not suspend: an API call or message handler '
         'runs atomically between two loop iterations (a suspending send_server_messages would let other '
@@ -564,6 +728,8 @@ class C18(Property):
         'already removed request, or a second Timer.start(), are API misuse outside the property)',
         'properties are claimed for fewer than 2^32-1 ticket draws between two live requests; the correspondence '
         'stops comparing at the first ticket re-use (the model flags it as `clobber`)',
+        'suspension inside connection.disconnect() of the reply handler is exercised by the monitor-only `gated` '
+        'family (event order only); the Lean model keeps the handler atomic',
         'WishlistInterval(0) makes the wishlist BackgroundTask spin without sleeping; not generated, not modelled',
     ]
     modelled = ('search/manager.py: search, search_room, search_user, _wishlist_job, _get_wishlist_request_timeout, '
@@ -582,6 +748,9 @@ class C18(Property):
         cases = _fixed_cases() + [W_REMOVE, W_REARM, W_WLMSG]
         for _ in range(n):
             cases.append(_gen_instant(rng) if rng.random() < 0.4 else _gen_random(rng))
+        # monitor-only family (own PRNG stream so that the modelled cases above stay what they were)
+        rng2 = random.Random(f'C18-gated-{seed}')
+        cases += _fixed_gated() + [_gen_gated(rng2) for _ in range(n // 5)]
         return cases
 
     def correspondence(self, seed, tier, model_ok, widen=1):
@@ -592,7 +761,7 @@ class C18(Property):
         if model_ok:
             lines, spans = [], []
             for c in cases:
-                ls = _model_lines(c)
+                ls = _model_lines(c) if c['kind'] != 'gated' else []     # gated cases: monitor only
                 spans.append((len(lines), len(ls)))
                 lines += ls
             out = common.run_driver(self.driver_file, lines)
@@ -617,6 +786,17 @@ class C18(Property):
             res.count('timeout:wishlist=' + ('server' if c['cfg']['wt'] < 0 else 'off' if c['cfg']['wt'] == 0 else 'own'))
             if c['cfg']['initial'] != 1:
                 res.count('generator-near-wrap')
+            if c['kind'] == 'gated':
+                res.count('gated:' + c.get('what', ''))
+                g = _gated_stats(c, tr)
+                for key, v in g.items():
+                    if v:
+                        res.count('gated-while-suspended:' + key, v)
+                if any(g.values()):
+                    res.nontrivial_keys.add(common.sha([c['cfg'], c['ops']]))
+                    res.count('gated-nontrivial')
+                res.violations += _monitor(c, tr)
+                continue
             if _nontrivial(c, tr):
                 res.nontrivial_keys.add(common.sha([c['cfg'], c['ops']]))
             il = _impl_lines(tr)
